@@ -21,6 +21,13 @@ pub const QE: Shape = Shape {
     limit_mask: 3, limit_max: 3, dl_mask: 3, b_mask: 0,
 };
 
+/// the other task never releases a job (arrival::Never-like curve with zero steps) but has
+/// a later deadline and a long non-preemptive section: it must not block
+pub const QEN: Shape = Shape {
+    n_tua: 2, n_others: 1, n_oth: 0, inc_mask: 3, cost_mask: 3,
+    limit_mask: 3, limit_max: 3, dl_mask: 3, b_mask: 0,
+};
+
 pub fn fp_body(s: &mut crate::Src, kind: Kind, sh: &Shape) {
     let sc = any_scenario(s, sh);
     let got = call_fp(kind, &sc);
@@ -72,12 +79,13 @@ harness!(c06_edf_np_t, 6, |s| { edf_body(s, Kind::NonPreemptive, &TE); });
 harness!(c06_edf_lp_t, 6, |s| { edf_body(s, Kind::Limited, &TE); });
 harness!(c06_edf_fl_t, 6, |s| { edf_body(s, Kind::Floating, &TE); });
 harness!(c06_fifo_t, 8, |s| { fifo_body(s, &T); });
+harness!(c06_edf_np_never_t, 5, |s| { edf_body(s, Kind::NonPreemptive, &QEN); });
 
 pub fn register(t: &mut Table) {
     reg!(t;
         c06_fp_p_q, c06_fp_np_q, c06_fp_lp_q, c06_fp_fl_q,
         c06_edf_p_q, c06_edf_np_q, c06_edf_lp_q, c06_edf_fl_q, c06_fifo_q,
         c06_fp_p_t, c06_fp_np_t, c06_fp_lp_t, c06_fp_fl_t,
-        c06_edf_p_t, c06_edf_np_t, c06_edf_lp_t, c06_edf_fl_t, c06_fifo_t,
+        c06_edf_p_t, c06_edf_np_t, c06_edf_lp_t, c06_edf_fl_t, c06_fifo_t, c06_edf_np_never_t,
     );
 }
